@@ -104,6 +104,19 @@ def gen_case(rng, gens=GENERATORS, max_total=6):
             if rng.random() < 0.5:
                 rng.shuffle(items)  # the interval's key order need not be the slate's listing order
             intervals[b][s] = dict(items)
+    # the parameter dictionaries are keyed by bloc / slate name: nothing promises that they list the blocs in the same order
+    def reorder(d):
+        items = list(d.items())
+        if rng.random() < 0.5:
+            rng.shuffle(items)
+        return dict(items)
+
+    if nb >= 2:
+        cohesion = reorder({b: reorder(row) for b, row in cohesion.items()})
+        intervals = reorder({b: reorder(d) for b, d in intervals.items()})
+        if gen != "CambridgeSampler":
+            slates = reorder(slates)
+            props = reorder(props)
     case.update(slates=slates, props=props, cohesion=cohesion, intervals=intervals)
     n = sum(sizes)
     if gen == "short_name_PlackettLuce":
